@@ -100,9 +100,12 @@ class Platform:
 
         # Determine the path to the include file, if it exists
         for path in local_paths + self._include_paths:
-            test_path = os.path.abspath(os.path.join(path, filename))
+            # The operating system decides what the spelling names: ".."
+            # after a symbolic link to a directory must not be cancelled
+            # textually.
+            test_path = os.path.join(path, filename)
             if os.path.isfile(test_path):
-                include_file = test_path
+                include_file = os.path.realpath(test_path)
                 self.found_incl[key] = include_file
                 return include_file
 
